@@ -3,6 +3,7 @@
 (* server returned (edit ranges mapped to occurrence ids by the renderer's table, -2 = a range that is no identifier *)
 (* occurrence), the build of the edited project and the text after renaming back.                                    *)
 (* r = [id, ok, main, files: <<[name, prog]>>, ord, oid, new, status, panic, offered, edits: <<[oid, text]>>,          *)
+(*      astral: <<oid>> occurrences behind an astral character on their line,                                        *)
 (*      okAfter, digestBefore, digestAfter, backDone, origText: <<[f, s]>>, backText: <<[f, s]>>]                     *)
 EXTENDS Scopes, Json, IOUtils
 
@@ -24,7 +25,12 @@ Judge(r) ==
            occ == OccOf(P, r.oid)
            d == occ.node
            at == " renaming occurrence " \o ToString(r.oid) \o " (" \o occ.name \o " in " \o occ.file \o ") to " \o r.new IN
-  IF P.mav \/ d = -1 \/ d = NoNode \/ occ.name = "super" THEN <<>>
+  IF occ.name = "-"
+    (* the automatic block symbol: there is no identifier to rewrite, so an offered rename with an edit can only destroy text *)
+    THEN IF r.status = "ok" /\ r.offered /\ r.edits # <<>>
+           THEN <<V(r.id, "deviation", "RenameOnBlockSymbol", "rename offered on `-' returns the edit " \o ToString(SeqSet(r.edits)) \o at)>>
+         ELSE <<>>
+  ELSE IF P.mav \/ d = -1 \/ d = NoNode \/ occ.name = "super" THEN <<>>
   ELSE IF r.status # "ok"
     THEN IF NestedIf0(files[r.main], FALSE, files) THEN <<V(r.id, "deviation", "NestedGreedyAnalysisPanics", "server died: " \o r.panic)>>
          ELSE <<V(r.id, "violation", "", "server died or did not answer (" \o r.panic \o ")" \o at)>>
@@ -36,7 +42,11 @@ Judge(r) ==
            stray == {e.oid : e \in (obs \ exp) \cup (exp \ obs)}
            supers == {o.oid : o \in {x \in P.occs : x.name = "super"}} IN
        IF obs # exp
-         THEN IF SeveralVars(P, d)
+         THEN IF r.astral # <<>> /\ stray \subseteq (SeqSet(r.astral) \cup {-2})
+                (* an occurrence that stands behind a character outside the BMP on its line: the server counts code points, the    *)
+                (* protocol UTF-16 code units, so the edit lands one column early (r.astral: those occurrences, by the renderer) *)
+                THEN <<V(r.id, "deviation", "PositionsCountCodePoints", "edit set " \o ToString(obs) \o " expected " \o ToString(exp) \o at)>>
+              ELSE IF SeveralVars(P, d)
                 THEN <<V(r.id, "deviation", "RemovedSymbolKeepsDefinition", "edit set " \o ToString(obs) \o " expected " \o ToString(exp) \o at)>>
               ELSE IF d \in ReassignedVars(P)
                 THEN <<V(r.id, "deviation", "VarReassignmentMovesDefinition", "edit set " \o ToString(obs) \o " expected " \o ToString(exp) \o at)>>
